@@ -126,6 +126,8 @@ type Gen struct {
 	foralls    []*forallFact
 	exIDs      map[string]string
 	instTerms  map[string][]string
+	instGen    int
+	ifaceUse   map[string]bool
 }
 
 func (g *Gen) newHV(name, so, term string, kind int, parents ...*HV) *HV {
